@@ -7,77 +7,87 @@
  * the tree itself (plain container API, no visitor) and records the path of every
  * non-NULL node; jso and parent_jso are looked up in that table.  A NULL jso (JSON null)
  * has no identity: its path is the parent's path plus the position named by the key or
- * index the callback received. */
+ * index the callback received.  Paths are run-length encoded ("/0^1000/1") so that
+ * deep trees stay printable. */
 #include "common.h"
 #include "jvtext.h"
 #include "json_visit.h"
 const char *DOMAIN = "visit";
 
-struct ent { struct json_object *o; char *path; };
+/* table of the non-NULL nodes: one entry per node in document order, with the entry of
+ * its parent and its position there; `order` = the entries sorted by pointer */
+struct ent { struct json_object *o; long parent; size_t pos; size_t depth; };
 static struct ent *tab;
 static size_t ntab, captab;
+static size_t *order;
+static size_t *comp;      /* scratch: the components of one path */
+static size_t capcomp;
 
-static void tab_add(struct json_object *o, const char *path)
+static long tab_add(struct json_object *o, long parent, size_t pos, size_t depth)
 {
 	if (ntab == captab) {
 		captab = captab ? captab * 2 : 64;
 		tab = (struct ent *)realloc(tab, captab * sizeof *tab);
 	}
-	tab[ntab].o = o;
-	tab[ntab].path = strdup(path);
-	ntab++;
+	tab[ntab].o = o; tab[ntab].parent = parent; tab[ntab].pos = pos; tab[ntab].depth = depth;
+	return (long)ntab++;
 }
 
-static const char *tab_find(struct json_object *o)
+static int cmp_order(const void *a, const void *b)
 {
-	size_t i;
-	const char *found = NULL;
-	for (i = 0; i < ntab; i++)
-		if (tab[i].o == o) {
-			if (found) return "AMBIGUOUS";
-			found = tab[i].path;
-		}
-	return found ? found : "UNKNOWN";
+	uintptr_t x = (uintptr_t)tab[*(const size_t *)a].o, y = (uintptr_t)tab[*(const size_t *)b].o;
+	return x < y ? -1 : x > y;
 }
 
-static void child_path(char *out, size_t cap, const char *parent, size_t pos)
+/* entry of a node; -1 unknown, -2 the pointer occurs twice */
+static long tab_find(struct json_object *o)
 {
-	if (strcmp(parent, "/") == 0) snprintf(out, cap, "/%zu", pos);
-	else snprintf(out, cap, "%s/%zu", parent, pos);
+	size_t lo = 0, hi = ntab;
+	while (lo < hi) {
+		size_t mid = lo + (hi - lo) / 2;
+		if ((uintptr_t)tab[order[mid]].o < (uintptr_t)o) lo = mid + 1; else hi = mid;
+	}
+	if (lo >= ntab || tab[order[lo]].o != o) return -1;
+	if (lo + 1 < ntab && tab[order[lo + 1]].o == o) return -2;
+	return (long)order[lo];
 }
 
-static void index_tree(struct json_object *o, const char *path)
+static void index_tree(struct json_object *o, long parent, size_t pos, size_t depth)
 {
-	char *sub;
-	size_t cap = strlen(path) + 32;
+	long me;
 	if (!o) return;
-	tab_add(o, path);
-	sub = (char *)malloc(cap);
+	me = tab_add(o, parent, pos, depth);
 	if (json_object_get_type(o) == json_type_array) {
 		size_t i, n = json_object_array_length(o);
-		for (i = 0; i < n; i++) {
-			child_path(sub, cap, path, i);
-			index_tree(json_object_array_get_idx(o, i), sub);
-		}
+		for (i = 0; i < n; i++) index_tree(json_object_array_get_idx(o, i), me, i, depth + 1);
 	} else if (json_object_get_type(o) == json_type_object) {
 		struct lh_entry *e;
 		size_t i = 0;
-		for (e = json_object_get_object(o)->head; e; e = e->next, i++) {
-			child_path(sub, cap, path, i);
-			index_tree((struct json_object *)lh_entry_v(e), sub);
-		}
+		for (e = json_object_get_object(o)->head; e; e = e->next, i++)
+			index_tree((struct json_object *)lh_entry_v(e), me, i, depth + 1);
 	}
-	free(sub);
 }
 
-static int depth_of(const char *path)
+/* print the path of entry `e` (-1/-2: not a known node), optionally extended by one more
+ * component; runs of equal components are written once: "/0^1000/1".  Returns the depth. */
+static long put_path(long e, int extend, size_t last)
 {
-	int d = 0;
-	const char *p;
-	if (strcmp(path, "/") == 0) return 0;
-	if (path[0] != '/') return -1;
-	for (p = path; *p; p++) if (*p == '/') d++;
-	return d;
+	size_t n, i, k;
+	if (e == -1) { printf("UNKNOWN"); return -1; }
+	if (e == -2) { printf("AMBIGUOUS"); return -1; }
+	n = (e >= 0 ? tab[e].depth : 0) + (extend ? 1 : 0);
+	if (n == 0) { putchar('/'); return 0; }
+	if (n > capcomp) { capcomp = n * 2; comp = (size_t *)realloc(comp, capcomp * sizeof *comp); }
+	k = n;
+	if (extend) comp[--k] = last;
+	for (; e >= 0 && tab[e].parent >= 0; e = tab[e].parent) comp[--k] = tab[e].pos;
+	for (i = 0; i < n;) {
+		size_t j = i;
+		while (j < n && comp[j] == comp[i]) j++;
+		if (j - i > 1) printf("/%zu^%zu", comp[i], j - i); else printf("/%zu", comp[i]);
+		i = j;
+	}
+	return (long)n;
 }
 
 static struct json_object *root;
@@ -87,16 +97,14 @@ static size_t ncodes, ncalls;
 static int cb(struct json_object *jso, int flags, struct json_object *parent, const char *key,
               size_t *idx, void *arg)
 {
-	char buf[64];
-	char *nullpath = NULL;
-	const char *path, *ppath = NULL;
+	long pe = parent ? tab_find(parent) : -3, depth;
 	if (arg != (void *)&ncalls) printf("BADARG ");
-	if (parent) ppath = tab_find(parent);
-	if (jso) path = tab_find(jso);
-	else if (!parent) path = root ? "UNKNOWN" : "/";
-	else {
+	if (jso) depth = put_path(tab_find(jso), 0, 0);
+	else if (!parent) {
+		if (root) { printf("UNKNOWN"); depth = -1; } else { putchar('/'); depth = 0; }
+	} else {
 		/* JSON null member or element: locate it through what the callback was told */
-		size_t cap = strlen(ppath) + 32, pos = (size_t)-1;
+		size_t pos = (size_t)-1;
 		if (json_object_get_type(parent) == json_type_array && idx) pos = *idx;
 		else if (json_object_get_type(parent) == json_type_object && key) {
 			struct lh_entry *e;
@@ -104,22 +112,22 @@ static int cb(struct json_object *jso, int flags, struct json_object *parent, co
 			for (e = json_object_get_object(parent)->head; e; e = e->next, i++)
 				if (strcmp((const char *)lh_entry_k(e), key) == 0) { pos = i; break; }
 		}
-		nullpath = (char *)malloc(cap);
-		if (pos == (size_t)-1) strcpy(nullpath, "UNKNOWN");
-		else child_path(nullpath, cap, ppath, pos);
-		path = nullpath;
+		if (pos == (size_t)-1 || pe < 0) { printf("UNKNOWN"); depth = -1; }
+		else depth = put_path(pe, 1, pos);
 	}
-	printf("%s %d ", path, flags);
+	printf(" %d ", flags);
 	if (!parent) printf("-");
-	else printf("%c@%s", json_object_get_type(parent) == json_type_array ? 'a'
-	                     : json_object_get_type(parent) == json_type_object ? 'o' : 'X', ppath);
+	else {
+		printf("%c@", json_object_get_type(parent) == json_type_array ? 'a'
+		              : json_object_get_type(parent) == json_type_object ? 'o' : 'X');
+		put_path(pe, 0, 0);
+	}
 	putchar(' ');
 	if (key && idx) printf("BOTH");
 	else if (key) { putchar('k'); puthex((const unsigned char *)key, strlen(key)); }
-	else if (idx) { snprintf(buf, sizeof buf, "i%zu", *idx); fputs(buf, stdout); }
+	else if (idx) printf("i%zu", *idx);
 	else putchar('-');
-	printf(" %d | ", depth_of(path));
-	free(nullpath);
+	printf(" %ld | ", depth);
 	ncalls++;
 	return ncalls - 1 < ncodes ? (int)codes[ncalls - 1] : 0;
 }
@@ -149,7 +157,10 @@ void run_case(char *rest)
 	root = jv_parse(&p, &err);
 	if (err || *p) { printf("BADTREE"); json_object_put(root); free(codes); return; }
 	ntab = 0;
-	index_tree(root, "/");
+	index_tree(root, -1, 0, 0);
+	order = (size_t *)malloc((ntab ? ntab : 1) * sizeof *order);
+	for (i = 0; i < ntab; i++) order[i] = i;
+	qsort(order, ntab, sizeof *order, cmp_order);
 	fflush(stderr);
 	{	/* the library reports invalid codes on stderr: keep the log quiet */
 		FILE *old = stderr;
@@ -161,7 +172,7 @@ void run_case(char *rest)
 	}
 	printf("ret %d", ret);
 	json_object_put(root);
-	for (i = 0; i < ntab; i++) free(tab[i].path);
+	free(order);
 	ntab = 0;
 	free(codes);
 	if (xa_live != 0) printf(" | LEAK %ld", xa_live);
